@@ -193,4 +193,34 @@ theorem emptyRunsLe_mono (n : Nat) (ls : List Line) (a b : Nat) (hab : a ≤ b)
       exact ⟨by omega, ih (a + 1) (b + 1) (by omega) h.2⟩
     · simpa [he] using h
 
+/-! ### State threading -/
+
+theorem pipeLine_length (pps : List PP) (ss : List Nat) (l : Line) :
+    (pipeLine pps ss l).2.length = ss.length := by
+  induction pps generalizing ss l with
+  | nil => simp [pipeLine]
+  | cons p ps ih =>
+    cases ss with
+    | nil => simp [pipeLine]
+    | cons s ss => simp [pipeLine, ih]
+
+theorem pipeLinesSt_fst (pps : List PP) (ss : List Nat) (ls : List Line) :
+    (pipeLinesSt pps ss ls).1 = pipeLines pps ss ls := by
+  induction ls generalizing ss with
+  | nil => rfl
+  | cons l ls ih => simp [pipeLinesSt, pipeLines, ih]
+
+theorem pipeLinesSt_length (pps : List PP) (ss : List Nat) (ls : List Line) :
+    (pipeLinesSt pps ss ls).2.length = ss.length := by
+  induction ls generalizing ss with
+  | nil => rfl
+  | cons l ls ih => simp [pipeLinesSt, ih, pipeLine_length]
+
+theorem resetAll_eq (ss : List Nat) (n : Nat) (h : ss.length = n) :
+    resetAll ss = List.replicate n 0 := by
+  subst h
+  induction ss with
+  | nil => rfl
+  | cons s ss ih => simp [resetAll, List.replicate_succ] at ih ⊢; exact ih
+
 end NunavutVerif.LineBuffer
